@@ -133,3 +133,38 @@ func init() {
 	_ = strings.Join
 	_ = types.Typ
 }
+
+func init() {
+	sortSlice := func(i *Interp, caller *frame, _ *ssa.Function, a []value) value {
+		itf := a[0].(iface)
+		s, ok := itf.v.([]value)
+		if !ok {
+			fault("sort.Slice on %T", itf.v)
+		}
+		// insertion sort (stable); every comparison is the interpreted less function
+		for x := 1; x < len(s); x++ {
+			for y := x; y > 0; y-- {
+				r := i.call(caller, 0, a[1], []value{TBV(64, uint64(y)), TBV(64, uint64(y-1))}).(*Term)
+				if !i.branch(r) {
+					break
+				}
+				s[y], s[y-1] = s[y-1], s[y]
+			}
+		}
+		return nil
+	}
+	intrinsics["sort.Slice"] = sortSlice
+	intrinsics["sort.SliceStable"] = sortSlice
+	intrinsics["sort.Strings"] = func(i *Interp, caller *frame, _ *ssa.Function, a []value) value {
+		s := a[0].([]value)
+		for x := 1; x < len(s); x++ {
+			for y := x; y > 0; y-- {
+				if !i.branch(StrLt(s[y].(*Term), s[y-1].(*Term))) {
+					break
+				}
+				s[y], s[y-1] = s[y-1], s[y]
+			}
+		}
+		return nil
+	}
+}
